@@ -339,7 +339,17 @@ macro_rules! exec_rational {
                     if !f.repr().is_finite() || f.repr().exponent().unsigned_abs() > 2000 {
                         return env.skip();
                     }
-                    if let Ok(v) = <$T>::try_from(f.clone()) {
+                    let r = if form % 2 == 0 {
+                        <$T>::try_from(f.clone())
+                    } else {
+                        // the decimal pool: bases with an odd prime factor need the full reduction
+                        let g = &w.d[a];
+                        if !g.repr().is_finite() || g.repr().exponent().unsigned_abs() > 600 {
+                            return env.skip();
+                        }
+                        <$T>::try_from(g.clone())
+                    };
+                    if let Ok(v) = r {
                         w.$pool[dst] = v;
                     } else {
                         env.emit_u64("refused", 1);
@@ -595,3 +605,58 @@ fn exec_special(w: &mut World, op: &Op, rest: &str, env: &mut Env, pool: &str) {
 
 #[allow(unused_imports)]
 use {DivEuclid as _D, RemEuclid as _R, Signed as _S};
+
+
+/// `rbig.reduce`: a fraction with a planted common factor whose parts have 150..350 words, reduced through the public
+/// constructors / operators; value (cross-multiplication) and lowest terms are judged against num-bigint inside the step.
+pub fn exec_rbig(w: &mut World, op: &Op, rest: &str, env: &mut Env) {
+    use crate::view::{ibig_to_bigint, ubig_to_bigint};
+    use num_integer::Integer;
+    use num_traits::{One, Signed as _, Zero};
+    if rest != "reduce" {
+        untracked(|| panic!("dsim: unknown op rbig.{}", rest));
+    }
+    if cfg!(miri) {
+        return env.skip();
+    }
+    let (a, b, c) = (ix(op.a), ix(op.b), ix(op.c));
+    let sz = op.m.unsigned_abs() as usize;
+    let wide = |seed: &UBig, bits: usize| -> UBig {
+        let low = seed & UBig::ones(bits.min(4096));
+        (UBig::ONE << (bits - 1)) | (&low << ((bits / 3) % 1500)) | low
+    };
+    let g0 = (&w.u[c] & UBig::ones(1 + sz % 400)) | UBig::ONE;
+    // lengths in words: both >= 300 half of the time; the gap between the two is what selects the guess paths
+    let words_a = if sz % 2 == 0 { 300 + sz % 40 } else { 150 + sz % 60 };
+    let gap_bits = [0usize, 1, 63, 64, 65, 127, 128, 129, 200, 3000][(op.n.unsigned_abs() % 10) as usize];
+    let bits_a = 64 * words_a - (sz / 7) % 64;
+    let bits_b = bits_a.saturating_sub(gap_bits).max(130);
+    let (a0, b0) = (wide(&w.u[a], bits_a), wide(&w.u[b], bits_b));
+    let num = IBig::from_parts(w.i[a].sign(), &g0 * &a0);
+    let den = &g0 * &b0;
+    let r: RBig = match (op.form & 255) % 3 {
+        0 => RBig::from_parts(num.clone(), den.clone()),
+        1 => Relaxed::from_parts(num.clone(), den.clone()).canonicalize(),
+        _ => RBig::from(num.clone()) / RBig::from(den.clone()),
+    };
+    env.emit_u64("nbits", r.numerator().bit_len() as u64);
+    env.emit_u64("dbits", r.denominator().bit_len() as u64);
+    if env.ratio_oracle {
+        let (rn, rd) = untracked(|| (ibig_to_bigint(r.numerator()), ubig_to_bigint(r.denominator())));
+        let (n, d) = untracked(|| (ibig_to_bigint(&num), ubig_to_bigint(&den)));
+        let verdict = untracked(|| {
+            if rd.is_zero() {
+                Some(("ratio.zero_denominator", "zero denominator".to_string()))
+            } else if &rn * &d != &n * &rd {
+                Some(("ratio.rbig_value", format!("{} / {} words with a planted factor of {} bits: the reduced fraction is another number", words_a, bits_b / 64, g0.bit_len())))
+            } else if !rn.gcd(&rd).is_one() || rd.is_negative() || (rn.is_zero() && !rd.is_one()) {
+                Some(("ratio.not_lowest_terms", format!("{} / {} words with a planted factor of {} bits: not in lowest terms (gcd of the result has {} bits)", words_a, bits_b / 64, g0.bit_len(), rn.gcd(&rd).bits())))
+            } else {
+                None
+            }
+        });
+        if let Some((class, detail)) = verdict {
+            env.violation = Some(untracked(|| (class.to_string(), detail)));
+        }
+    }
+}
